@@ -20,7 +20,8 @@ func init() {
 			"D2 after the read loop is left (input closed and drained) every output is closed on every path: a covering traversal that starts from the iterator's Start state for Fork/Split, the single output for Join; " +
 			"D3 distribution shape: Fork hands each value read to every output through a covering traversal from Start; Split/Join move exactly one value per successful read and follow every GetNext of the cyclic iterator by the wrap check (!HasNext -> ToStart) before the next iteration; " +
 			"D4 the loops of the three helpers are in a terminating or blocking-read loop form." +
-			" Also: a backward traversal that closes the outputs starts from ToEnd; the rotation over the outputs advances once per value; a preloaded input delivers every value (token balance at birth).",
+			" Also: a backward traversal that closes the outputs starts from ToEnd; the rotation over the outputs advances once per value; a preloaded input delivers every value (token balance at birth)." +
+			" Round 7: the goroutine does not ask a caller-owned sequence operand for anything after the helper returned; a goroutine started through a private starter is bound through it.",
 		NotDecided: "order and conservation across schedules, termination of the helpers (needs readers to drain the outputs), absence of delivery after closure.",
 		Run:        runC06,
 	})
